@@ -152,12 +152,11 @@ def run_suite(exe, suite, seed, tier, tag, extra=()):
     return res
 
 
-def run_driver(transcript):
-    rc, out, w = sh([DRIVER, transcript], timeout=7200)
-    res = {"driver_rc": rc, "wall_driver": w, "mismatches": [], "summary": {}, "notes": []}
+def _parse_driver_output(out, transcript):
+    res = {"mismatches": [], "summary": {}, "notes": []}
     for line in out.split("\n"):
         if line.startswith("MISMATCH") or line.startswith("UNKNOWN-COMPONENT"):
-            d = {"raw": line}
+            d = {"raw": line, "transcript": transcript}
             for m in re.finditer(r'(\w+)=("([^"]*)"|\S+)', line):
                 d[m.group(1)] = m.group(3) if m.group(3) is not None else m.group(2)
             d["kind"] = line.split()[0]
@@ -170,8 +169,60 @@ def run_driver(transcript):
                     res["summary"][m.group(1)] = m.group(2)
         elif line.startswith("NOTE"):
             res["notes"].append(line)
-    if not res["summary"]:
-        res["error"] = "driver produced no SUMMARY: " + out[-500:]
+    return res
+
+
+def split_transcript(transcript, k):
+    """split at case boundaries into k chunks of similar size (greedy by bytes)"""
+    header, cases, cur = [], [], None
+    with open(transcript) as f:
+        for line in f:
+            if line.startswith("C "):
+                cur = [line]
+                cases.append(cur)
+            elif cur is None:
+                header.append(line)
+            else:
+                cur.append(line)
+    sizes = [0] * k
+    chunks = [[] for _ in range(k)]
+    order = sorted(range(len(cases)), key=lambda i: -sum(len(l) for l in cases[i]))
+    for i in order:
+        j = sizes.index(min(sizes))
+        chunks[j].append(i)
+        sizes[j] += sum(len(l) for l in cases[i])
+    paths = []
+    for j in range(k):
+        if not chunks[j]:
+            continue
+        pth = f"{transcript}.part{j}"
+        with open(pth, "w") as f:
+            f.writelines(header)
+            for i in sorted(chunks[j]):
+                f.writelines(cases[i])
+        paths.append(pth)
+    return paths
+
+
+def run_driver(transcript, jobs=16):
+    t0 = time.time()
+    size = os.path.getsize(transcript)
+    parts = split_transcript(transcript, jobs) if size > 2_000_000 else [transcript]
+    procs = [(p, subprocess.Popen([DRIVER, p], stdout=subprocess.PIPE, stderr=subprocess.STDOUT, text=True,
+                                  errors="replace")) for p in parts]
+    res = {"driver_rc": 0, "mismatches": [], "summary": {}, "notes": []}
+    for p, pr in procs:
+        out, _ = pr.communicate()
+        r = _parse_driver_output(out, p)
+        if not r["summary"]:
+            res["error"] = "driver produced no SUMMARY on " + p + ": " + out[-500:]
+        res["mismatches"] += r["mismatches"]
+        res["notes"] += r["notes"]
+        for k2, v in r["summary"].items():
+            if isinstance(v, int):
+                res["summary"][k2] = res["summary"].get(k2, 0) + v
+        res["driver_rc"] |= pr.returncode
+    res["wall_driver"] = time.time() - t0
     return res
 
 
@@ -281,7 +332,7 @@ class Check:
             if len(self.violations) >= 25:
                 continue
             upto = int(mm["line"]) if mm.get("line", "").isdigit() else None
-            lines = extract_case(res["transcript"], cid, upto)
+            lines = extract_case(mm.get("transcript", res["transcript"]), cid, upto)
             sigtag = re.sub(r"[^A-Za-z0-9_.-]+", "_", sig)[:60]
             path = self.write_replay(f"{res['suite']}-case{cid}-{sigtag}", [
                 f"# property {self.prop}: disagreement between /repo and the Lean model/spec",
